@@ -135,8 +135,10 @@ pub fn gen(tier: &str, seed: u64) -> Gen {
     let take = if thorough { 40_000 } else { 1500 };
     let mut sn = 0;
     for (gen12, tag12) in [(super::c12::gen(tier, seed ^ 0x12), "C12"), (super::c03::gen(tier, seed ^ 0x03), "C03")].iter() {
-        let _ = tag12;
-        for c in sample(&mut rng, &gen12.0, take) {
+        // besides the random sample, the whole of C03's closing families (divisions by computed
+        // zeros, the i64 extremes against -1, 0, 1, 2): the operand pairs whose arithmetic overflows
+        let tail: Vec<Term> = if *tag12 == "C03" { gen12.0.iter().rev().take(700).cloned().collect() } else { Vec::new() };
+        for c in sample(&mut rng, &gen12.0, take).into_iter().chain(tail.into_iter()) {
             let mut script = String::new();
             for v in c.nth(2).as_list() {
                 script.push_str(&Value::from(vec![Value::from("set"), Value::from(v.nth(0).as_str()), Value::from(v.nth(1).as_str())]).as_str());
